@@ -1,1 +1,354 @@
-//! Scenario builder for full-stack properties (filled in later).
+//! Building blocks for full-stack scenarios: runtimes with virtual time, a
+//! frame recorder / fault plan on the H4 hook, and scriptable applications
+//! that record everything delivered to them.
+
+use async_trait::async_trait;
+use elvis_core::{
+    machine::Machine,
+    message::Message,
+    network::{
+        verif::{FrameHook, FrameInfo, Verdict},
+        Mac,
+    },
+    protocol::{DemuxError, StartError},
+    protocols::{
+        ipv4::ipv4_parsing::Ipv4Header, pci, udp::UdpHeader, Arp, Endpoints, Ipv4,
+    },
+    Control, Protocol, Session, Shutdown,
+};
+use std::{
+    any::TypeId,
+    future::Future,
+    pin::Pin,
+    sync::{
+        atomic::{AtomicU64, Ordering},
+        Arc, Mutex,
+    },
+    time::Duration,
+};
+use tokio::sync::Barrier;
+
+/// Process-wide logical clock: every recorded event takes a stamp, so that
+/// events recorded by different monitors can be ordered (SeqCst).
+pub static STAMP: AtomicU64 = AtomicU64::new(1);
+pub fn stamp() -> u64 {
+    STAMP.fetch_add(1, Ordering::SeqCst)
+}
+
+/// Run a future on a current-thread runtime whose clock is paused: all
+/// `tokio::time` delays elapse in exact virtual time.
+pub fn run_paused<F: Future>(f: F) -> F::Output {
+    crate::PRINT_PANICS.store(true, Ordering::SeqCst);
+    let rt = tokio::runtime::Builder::new_current_thread()
+        .enable_time()
+        .start_paused(true)
+        .build()
+        .expect("runtime");
+    let out = rt.block_on(f);
+    drop(rt);
+    crate::HOOK_DIRTY.store(true, Ordering::SeqCst);
+    out
+}
+
+/// Run a future on a multi-thread runtime with `workers` threads (real clock).
+pub fn run_multi<F: Future>(workers: usize, f: F) -> F::Output {
+    crate::PRINT_PANICS.store(true, Ordering::SeqCst);
+    let rt = tokio::runtime::Builder::new_multi_thread()
+        .worker_threads(workers)
+        .enable_time()
+        .build()
+        .expect("runtime");
+    let out = rt.block_on(f);
+    rt.shutdown_timeout(Duration::from_millis(200));
+    crate::HOOK_DIRTY.store(true, Ordering::SeqCst);
+    out
+}
+
+#[derive(Debug, Clone, Copy, PartialEq, Eq, Hash)]
+pub enum Kind {
+    Ipv4,
+    Arp,
+    Other,
+}
+
+pub fn kind_of(t: TypeId) -> Kind {
+    if t == TypeId::of::<Ipv4>() {
+        Kind::Ipv4
+    } else if t == TypeId::of::<Arp>() {
+        Kind::Arp
+    } else {
+        Kind::Other
+    }
+}
+
+#[derive(Debug, Clone)]
+pub struct FrameRec {
+    pub stamp: u64,
+    pub seq_no: u64,
+    pub net_id: u64,
+    pub sender: Mac,
+    pub destination: Option<Mac>,
+    pub kind: Kind,
+    pub protocol: TypeId,
+    pub bytes: Vec<u8>,
+    /// virtual (or real) time since the recorder was created
+    pub t_send: Duration,
+    pub dropped: bool,
+    pub copies: u32,
+    pub extra_delay: Duration,
+    /// (tap, time, stamp) of every hand-over to a tap
+    pub deliveries: Vec<(Mac, Duration, u64)>,
+}
+
+pub type Decide = Box<dyn FnMut(&FrameRec) -> Verdict + Send>;
+
+/// Records every frame of the networks it is installed on and applies a fault plan.
+pub struct Recorder {
+    pub start: tokio::time::Instant,
+    pub frames: Mutex<Vec<FrameRec>>,
+    decide: Mutex<Decide>,
+}
+
+impl Recorder {
+    pub fn new(decide: Decide) -> Arc<Recorder> {
+        Arc::new(Recorder {
+            start: tokio::time::Instant::now(),
+            frames: Mutex::new(vec![]),
+            decide: Mutex::new(decide),
+        })
+    }
+    pub fn passive() -> Arc<Recorder> {
+        Self::new(Box::new(|_| Verdict::PASS))
+    }
+    pub fn now(&self) -> Duration {
+        tokio::time::Instant::now().duration_since(self.start)
+    }
+    pub fn snapshot(&self) -> Vec<FrameRec> {
+        self.frames.lock().unwrap().clone()
+    }
+    pub fn count(&self) -> usize {
+        self.frames.lock().unwrap().len()
+    }
+}
+
+impl FrameHook for Recorder {
+    fn on_send(&self, f: &FrameInfo) -> Verdict {
+        let mut rec = FrameRec {
+            stamp: stamp(),
+            seq_no: f.seq_no,
+            net_id: f.net_id,
+            sender: f.sender,
+            destination: f.destination,
+            kind: kind_of(f.protocol),
+            protocol: f.protocol,
+            bytes: f.message.to_vec(),
+            t_send: self.now(),
+            dropped: false,
+            copies: 1,
+            extra_delay: Duration::ZERO,
+            deliveries: vec![],
+        };
+        let v = (self.decide.lock().unwrap())(&rec);
+        match v {
+            Verdict::Drop => rec.dropped = true,
+            Verdict::Deliver { extra_delay, copies } => {
+                rec.copies = copies;
+                rec.extra_delay = extra_delay;
+                if copies == 0 {
+                    rec.dropped = true;
+                }
+            }
+        }
+        self.frames.lock().unwrap().push(rec);
+        v
+    }
+
+    fn on_deliver(&self, f: &FrameInfo, tap: Mac) {
+        let now = self.now();
+        let st = stamp();
+        let mut frames = self.frames.lock().unwrap();
+        if let Some(r) = frames.iter_mut().rev().find(|r| r.seq_no == f.seq_no) {
+            r.deliveries.push((tap, now, st));
+        }
+    }
+}
+
+// ---------------------------------------------------------------------------
+// Scriptable recording applications. `App<N>` are distinct Rust types for
+// distinct N so that several can live on one machine.
+
+#[derive(Debug, Clone)]
+pub struct DemuxEvent {
+    pub stamp: u64,
+    pub time: Duration,
+    pub app: usize,
+    pub machine: usize,
+    pub payload: Vec<u8>,
+    pub ipv4: Option<Ipv4Header>,
+    pub udp: Option<UdpHeader>,
+    pub pci: Option<pci::DemuxInfo>,
+    pub endpoints: Option<Endpoints>,
+}
+
+pub type Log = Arc<Mutex<Vec<DemuxEvent>>>;
+
+pub type BoxFut = Pin<Box<dyn Future<Output = ()> + Send>>;
+/// Runs synchronously inside start(), before the barrier (bind, listen …). Gets (machine, own TypeId).
+pub type SetupFn = Box<dyn FnOnce(Arc<Machine>, TypeId) -> BoxFut + Send>;
+/// Runs after the barrier. Gets (machine, own TypeId, shutdown).
+pub type BodyFn = Box<dyn FnOnce(Arc<Machine>, TypeId, Shutdown) -> BoxFut + Send>;
+pub type OnDemux = Box<dyn Fn(&DemuxEvent, Arc<dyn Session>, Arc<Machine>) + Send + Sync>;
+
+pub struct App<const N: usize> {
+    pub machine_index: usize,
+    pub log: Log,
+    pub t0: tokio::time::Instant,
+    setup: Mutex<Option<SetupFn>>,
+    body: Mutex<Option<BodyFn>>,
+    on_demux: Option<OnDemux>,
+    /// stamps of (arrival at the barrier, release from the barrier)
+    pub barrier_stamps: Arc<Mutex<Vec<(u64, u64)>>>,
+}
+
+impl<const N: usize> App<N> {
+    pub fn new(machine_index: usize, log: Log) -> Self {
+        App {
+            machine_index,
+            log,
+            t0: tokio::time::Instant::now(),
+            setup: Mutex::new(None),
+            body: Mutex::new(None),
+            on_demux: None,
+            barrier_stamps: Arc::new(Mutex::new(vec![])),
+        }
+    }
+    pub fn setup(self, f: SetupFn) -> Self {
+        *self.setup.lock().unwrap() = Some(f);
+        self
+    }
+    pub fn body(self, f: BodyFn) -> Self {
+        *self.body.lock().unwrap() = Some(f);
+        self
+    }
+    pub fn on_demux(mut self, f: OnDemux) -> Self {
+        self.on_demux = Some(f);
+        self
+    }
+    pub fn with_t0(mut self, t0: tokio::time::Instant) -> Self {
+        self.t0 = t0;
+        self
+    }
+    pub fn with_barrier_stamps(mut self, b: Arc<Mutex<Vec<(u64, u64)>>>) -> Self {
+        self.barrier_stamps = b;
+        self
+    }
+}
+
+#[async_trait]
+impl<const N: usize> Protocol for App<N> {
+    async fn start(&self, shutdown: Shutdown, initialized: Arc<Barrier>, machine: Arc<Machine>) -> Result<(), StartError> {
+        let setup = self.setup.lock().unwrap().take();
+        if let Some(f) = setup {
+            f(machine.clone(), self.id()).await;
+        }
+        let arrive = stamp();
+        initialized.wait().await;
+        let release = stamp();
+        self.barrier_stamps.lock().unwrap().push((arrive, release));
+        let body = self.body.lock().unwrap().take();
+        if let Some(f) = body {
+            f(machine, self.id(), shutdown).await;
+        }
+        Ok(())
+    }
+
+    fn demux(&self, message: Message, caller: Arc<dyn Session>, control: Control, machine: Arc<Machine>) -> Result<(), DemuxError> {
+        let ev = DemuxEvent {
+            stamp: stamp(),
+            time: tokio::time::Instant::now().duration_since(self.t0),
+            app: N,
+            machine: self.machine_index,
+            payload: message.to_vec(),
+            ipv4: control.get::<Ipv4Header>().copied(),
+            udp: control.get::<UdpHeader>().copied(),
+            pci: control.get::<pci::DemuxInfo>().copied(),
+            endpoints: control.get::<Endpoints>().copied(),
+        };
+        if let Some(f) = &self.on_demux {
+            f(&ev, caller, machine);
+        }
+        self.log.lock().unwrap().push(ev);
+        Ok(())
+    }
+}
+
+/// Adds `App<N>` for a runtime-chosen N in 0..8 to a machine.
+pub fn with_app(m: Machine, n: usize, build: impl FnOnce() -> AppParts) -> Machine {
+    let p = build();
+    macro_rules! mk {
+        ($k:literal) => {{
+            let mut a = App::<$k>::new(p.machine_index, p.log).with_t0(p.t0).with_barrier_stamps(p.barrier_stamps);
+            if let Some(s) = p.setup {
+                a = a.setup(s);
+            }
+            if let Some(b) = p.body {
+                a = a.body(b);
+            }
+            if let Some(d) = p.on_demux {
+                a = a.on_demux(d);
+            }
+            m.with(a)
+        }};
+    }
+    match n {
+        0 => mk!(0),
+        1 => mk!(1),
+        2 => mk!(2),
+        3 => mk!(3),
+        4 => mk!(4),
+        5 => mk!(5),
+        6 => mk!(6),
+        _ => mk!(7),
+    }
+}
+
+pub fn app_type_id(n: usize) -> TypeId {
+    match n {
+        0 => TypeId::of::<App<0>>(),
+        1 => TypeId::of::<App<1>>(),
+        2 => TypeId::of::<App<2>>(),
+        3 => TypeId::of::<App<3>>(),
+        4 => TypeId::of::<App<4>>(),
+        5 => TypeId::of::<App<5>>(),
+        6 => TypeId::of::<App<6>>(),
+        _ => TypeId::of::<App<7>>(),
+    }
+}
+
+pub struct AppParts {
+    pub machine_index: usize,
+    pub log: Log,
+    pub t0: tokio::time::Instant,
+    pub setup: Option<SetupFn>,
+    pub body: Option<BodyFn>,
+    pub on_demux: Option<OnDemux>,
+    pub barrier_stamps: Arc<Mutex<Vec<(u64, u64)>>>,
+}
+
+impl AppParts {
+    pub fn new(machine_index: usize, log: Log, t0: tokio::time::Instant) -> Self {
+        AppParts {
+            machine_index,
+            log,
+            t0,
+            setup: None,
+            body: None,
+            on_demux: None,
+            barrier_stamps: Arc::new(Mutex::new(vec![])),
+        }
+    }
+}
+
+pub fn ms(n: u64) -> Duration {
+    Duration::from_millis(n)
+}
